@@ -822,8 +822,8 @@ fn discharge_some(cx: &mut Ctx) {
                 }
             }
             // D.prefix: lex_string call sites
-            let prefix_ok = t.contains("[Some(c),Some('\"'|'\\''),..]=>matchStringKind::try_from(c){Ok(kind)=>{returnself.lex_string(kind);},_=>{},},")
-                && t.contains("[Some(c1),Some(c2),Some('\"'|'\\'')]=>matchStringKind::try_from([c1,c2]){Ok(kind)=>{returnself.lex_string(kind);},_=>{},},")
+            let prefix_ok = t.contains("[Some(c),Some('\"'|'\\''),..]=>matchStringKind::try_from(c){Ok(kind)=>returnself.lex_string(kind),_=>{},},")
+                && t.contains("[Some(c1),Some(c2),Some('\"'|'\\'')]=>matchStringKind::try_from([c1,c2]){Ok(kind)=>returnself.lex_string(kind),_=>{},},")
                 && t.contains("'\"'|'\\''=>{letstring=self.lex_string(StringKind::String)?;")
                 && t.matches("self.lex_string(").count() == 3;
             if prefix_ok {
